@@ -8,6 +8,7 @@ mod bfs;
 mod props_paths;
 mod props_api;
 mod props_bounds;
+mod props_deep;
 mod props_prm;
 mod props_py;
 mod props_repro;
@@ -44,7 +45,7 @@ fn main() {
                 _ => "quick",
             };
             let limit = std::env::var("MC_HANG_SECS").ok().and_then(|s| s.parse().ok()).unwrap_or(if tier == "quick" { 120 } else { 900 });
-            explore::start_watchdog(limit, prop.to_string());
+            explore::start_watchdog(limit, prop.to_string(), tier.to_string());
             match prop {
                 "C01" | "C02" | "C03" | "C04" | "C05" => props_paths::run(prop, tier),
                 "C15" | "C16" | "C17" => props_tree::run(prop, tier),
@@ -68,6 +69,7 @@ fn main() {
             let r = &v["replay"];
             match r["kind"].as_str() {
                 Some("paths") => props_paths::replay(r),
+                Some("deep") => props_deep::replay_file(r),
                 Some("tree") => props_tree::replay_file(r),
                 Some("prm") => props_prm::replay_file(r),
                 Some("repro") => props_repro::replay_file(r),
